@@ -222,6 +222,14 @@ def step (st : DState) (line : String) : DState × String :=
     | none => (st, "unsupported")
     | some tis => (st, "toks\t" ++ " ".intercalate (tis.map fun ti =>
         s!"{ti.start},{ti.stop},1,{hexOfString ti.text}," ++ (match ti.tok with | some t => encTok t | none => "-")))
+  | ["lexui", lang, t] =>
+    -- the highlight requests of the model's tokenizers, in the format of the implementation's operation log
+    let line := (stringOfHex t).toList
+    match lexFull Gen.lexEnv st.cfg lang st.now line with
+    | none => (st, "unsupported")
+    | some (_, adds) =>
+      let c := UiColl.new line
+      (st, "ui\t" ++ ";".intercalate (adds.map fun a => s!"r,{a.1},{a.2.1};a,{c.pos a.1},{c.pos a.2.1},{a.2.2}"))
   | ["text", lang, t] =>
     -- one line from raw text: model lexer, then the evaluation layers
     match lexText Gen.lexEnv st.cfg lang st.now (stringOfHex t).toList with
